@@ -245,7 +245,7 @@ example : compiles exF2 = true := by decide
 
 /-- F3 programs: as F2, and `switch (op) { case …: … default: … }` with `break`, fall-through from one case block into the next,
 several cases (and the default) sharing a block, `CaseValue` under `SwitchScenario`; nested in any way with ifs and loops
-(`cgStmts 3`).  Not in F3: a switch without cases, a header op that ends the routine, more than one default, a case block that
+(`cgStmts 3`).  Not in F3: a header op that ends the routine, more than one default, a case block that
 consists of a single `break` / `continue` / `break_loop` (`_process_block` may fold such a block into the case's header
 jump). -/
 def F3Prog (p : Program) : Prop := CgProg 3 p
